@@ -101,3 +101,11 @@ reg("C05", MC, "bounded exhaustive enumeration of grid/profile/scatter arguments
     "equal the (projected) coordinates of its own row and column; coordinate vectors are compared with the exact rational reference; "
     "metadata, names and refusals are checked. Real gridders are cross-checked against their own predict.",
     "Dyadic coordinates make decoding an equality test; only the harness gridder's predict is trusted.", "DESIGN.md section 5, C05")
+reg("C06", MC, "bounded exhaustive enumeration of step lists (operation sequences up to depth 3/4) against hand-threaded fresh instances; refit histories",
+    "Every step list of length <= 3 (thorough 4) over a scalar and a 2-component alphabet (trends, damped spline, neighbours, block "
+    "reductions, nested chain, vectors) x datasets x weights x data shape is fitted as a Chain and compared with a reference that threads "
+    "(coordinates, data, weights) by hand through fresh instances of the same steps; residual identity, Chain.filter, region_, refit "
+    "histories (fit a; fit b / filter after fit versus fresh), BaseGridder.filter object identity and residual shape, and Vector "
+    "components versus separately fitted estimators with their own weights.",
+    "The steps' own fit/predict/filter are trusted here (decided by C02, C09, C10, C15); compositions that cannot be executed by hand "
+    "(too few points after reduction) are counted as not compared.", "DESIGN.md section 5, C06")
